@@ -2243,6 +2243,16 @@ impl GraphEngine {
         Ok(())
     }
 
+    /// Names beginning with `_` are the record's own fields (`_from`, `_to`, `_directed`,
+    /// `_label`, ...) and are never read back as properties; a user property of such a name
+    /// would overwrite the structure of the node or edge it is stored with.
+    fn validate_user_properties(properties: &HashMap<String, PropertyValue>) -> Result<()> {
+        match properties.keys().find(|name| name.starts_with('_')) {
+            Some(name) => Err(GraphError::InvalidPropertyName { name: name.clone() }),
+            None => Ok(()),
+        }
+    }
+
     /// # Errors
     ///
     /// Returns `IndexAlreadyExists` if an index already exists for this property.
@@ -3257,6 +3267,7 @@ impl GraphEngine {
         labels: Vec<String>,
         properties: HashMap<String, PropertyValue>,
     ) -> Result<u64> {
+        Self::validate_user_properties(&properties)?;
         // Acquire lock to prevent TOCTOU race when unique constraints exist.
         let has_unique = self.has_any_unique_node_constraint();
         let _guard = if has_unique {
@@ -3320,6 +3331,7 @@ impl GraphEngine {
         properties: HashMap<String, PropertyValue>,
         directed: bool,
     ) -> Result<u64> {
+        Self::validate_user_properties(&properties)?;
         let edge_type = edge_type.into();
 
         // Acquire lock to prevent TOCTOU race when unique constraints exist.
@@ -3607,6 +3619,7 @@ impl GraphEngine {
         labels: Option<Vec<String>>,
         properties: HashMap<String, PropertyValue>,
     ) -> Result<()> {
+        Self::validate_user_properties(&properties)?;
         // Get old node for index maintenance
         let old_node = self.get_node(id)?;
 
@@ -3795,6 +3808,7 @@ impl GraphEngine {
     /// Returns `EdgeNotFound` if the edge doesn't exist.
     #[allow(clippy::needless_pass_by_value)] // ownership avoids caller clones
     pub fn update_edge(&self, id: u64, properties: HashMap<String, PropertyValue>) -> Result<()> {
+        Self::validate_user_properties(&properties)?;
         // Get old edge for index maintenance
         let old_edge = self.get_edge(id)?;
 
@@ -8176,6 +8190,7 @@ impl GraphEngine {
         labels: &[String],
         properties: &HashMap<String, PropertyValue>,
     ) -> Result<()> {
+        Self::validate_user_properties(&properties)?;
         let mut tensor = TensorData::new();
         tensor.set(
             "_id",
@@ -8298,6 +8313,7 @@ impl GraphEngine {
         properties: &HashMap<String, PropertyValue>,
         directed: bool,
     ) -> Result<()> {
+        Self::validate_user_properties(&properties)?;
         let mut tensor = TensorData::new();
         tensor.set(
             "_id",
